@@ -335,6 +335,17 @@ func c06Gen(tier string, rng *rand.Rand) []mCase {
 					c.expect, c.sigHint = "err", "inflated-count"
 					cs = append(cs, c)
 				}
+				// one more than there is (a fixed array: one more than it holds): judged by the model (and by the panic monitor)
+				if s.Ty == 9 || s.Ty == 8 {
+					n := len(s.Kids)
+					if s.Ty == 8 {
+						n /= 2
+					}
+					nb := append(append(append([]byte(nil), b.bytes[:cf.Start]...), mkCount(n+1)...), b.bytes[cf.End:]...)
+					c := mk("near-count", fmt.Sprintf("count of wire type %d at %d -> %d (one more than there is)", s.Ty, cf.Start, n+1), nb)
+					c.expect = "any"
+					cs = append(cs, c)
+				}
 				// a negative count (BYTE -1, SHORT -32768, INT -2^31) is no count: list, map and simple list alike
 				for _, neg := range [][]byte{{0x00, 0xff}, {0x01, 0x80, 0x00}, {0x02, 0x80, 0x00, 0x00, 0x00}} {
 					nb := append(append(append([]byte(nil), b.bytes[:cf.Start]...), neg...), b.bytes[cf.End:]...)
@@ -498,6 +509,13 @@ func c04Gen(tier string, rng *rand.Rand) []mCase {
 		c := mk("clean", "", b.bytes)
 		c.expect = "any"
 		cs = append(cs, c)
+		// the canonical image a conforming peer sends: the members of every struct value in ascending tag order (the
+		// identity on a conforming encoding; differs when the generated WriteTo emits members out of tag order)
+		{
+			c := mk("canonical-order", "members of every struct value re-ordered by tag", canonBytes(b.bytes, b.spans))
+			c.expect, c.ref, c.sigHint = "equal", clean, "canonical-order"
+			cs = append(cs, c)
+		}
 		known := schemaTags(b.e.typ)
 		for i := 0; i < 3; i++ {
 			n := 1 + rng.Intn(5)
